@@ -7,6 +7,7 @@ import (
 
 	"p9verif/evid"
 	"p9verif/memfs"
+	"p9verif/peers"
 	"p9verif/refcodec"
 
 	"pgregory.net/rapid"
@@ -66,6 +67,16 @@ func runFlushCase(c flushCase, st *flushStats) *fail {
 			return failf("harness-setup", "HARNESS-ERROR open dir: %v %v", r, err)
 		}
 		target = tReaddir(100, 0, 4000)
+	case "clunk": // the release of the fid's File is the request's backend call
+		target = tClunk(100)
+	case "remove": // UnlinkAt, then the release
+		target = tRemove(90)
+	case "walk-replace": // the walk, then the release of the File newfid was bound to
+		target = tWalk(0, 100, "P", "kdB")
+	case "walk-fail": // the third step fails: the Files of the first two are released
+		target = tWalk(0, 300, "P", "kdX", "no-such-entry")
+	case "rename-release": // see below: the rename itself performs the final release of a File
+		target = tRenameat(91, "rA", 92, "renamed")
 	default:
 		target = tGetattr(100)
 	}
@@ -77,12 +88,57 @@ func runFlushCase(c flushCase, st *flushStats) *fail {
 	if holdAt < 1 {
 		holdAt = 1
 	}
-	gate := memfs.NewGate(func(cl *memfs.Call) bool { return cl.Seq == base+holdAt && cl.Op != "Close" })
+	gate := memfs.NewGate(func(cl *memfs.Call) bool { return cl.Seq == base+holdAt })
+	var held *memfs.Call
+	waitStart := time.Now()
+	if c.Target == "rename-release" {
+		// A third connection holds the only fid on the renamed entry. The rename
+		// is first held inside that File's Renamed notification, the third
+		// connection goes away (its fid is dropped without waiting for the rename
+		// lock), and then the notification returns: the reference the rename took
+		// is the last one and the rename handler itself closes the File. That
+		// Close is the call held for the rest of the scenario.
+		s3 := peers.Start(p.srv)
+		defer s3.Close(10 * time.Second)
+		if _, err := s3.Version(64<<10, "9P2000.L.Google.7"); err != nil {
+			return failf("harness-version", "HARNESS-ERROR %v", err)
+		}
+		before := p.fs.Seq()
+		for i, m := range []*refcodec.Msg{tAttach(0, nofid, ""), tWalk(0, 1, "P", "kdA", "rA")} {
+			if r, err := s3.Call(withTag(m, uint16(1+i))); err != nil || r.Type == refcodec.Rlerror {
+				return failf("harness-setup", "HARNESS-ERROR %s: %v %v", m, r, err)
+			}
+		}
+		victim := 0
+		for _, cl := range p.fs.LogSince(before) {
+			if cl.New != 0 {
+				victim = cl.New
+			}
+		}
+		g1 := memfs.NewGate(func(cl *memfs.Call) bool { return cl.Op == "Renamed" && cl.Handle == victim })
+		p.fs.AddGate(g1)
+		defer g1.Release()
+		gate = memfs.NewGate(func(cl *memfs.Call) bool { return cl.Op == "Close" && cl.Handle == victim })
+		p.fs.AddGate(gate)
+		defer gate.Release()
+		p.s.Send(refcodec.Encode(target))
+		select {
+		case <-g1.Entered:
+		case <-time.After(20 * time.Second):
+			return failf("harness-gate", "HARNESS-ERROR the rename never reached Renamed on the victim")
+		}
+		s3.Close(300 * time.Millisecond)
+		g1.Release()
+		select {
+		case held = <-gate.Entered:
+		case <-time.After(20 * time.Second):
+			return failf("harness-gate", "HARNESS-ERROR the victim's File was not closed after the notification returned (connection gone): %s", logString(p.fs.LogSince(before)))
+		}
+		goto events
+	}
 	p.fs.AddGate(gate)
 	defer gate.Release()
 	p.s.Send(refcodec.Encode(target))
-	var held *memfs.Call
-	waitStart := time.Now()
 	for held == nil {
 		select {
 		case held = <-gate.Entered:
@@ -250,6 +306,9 @@ events:
 			if fr.Type != target.Type+1 && fr.Type != refcodec.Rlerror {
 				return failf("flushed-request-reply-type", "the flushed request %s was answered %s: %s", target, fr, desc())
 			}
+			if fr.Type == refcodec.Rlerror && c.Target == "walk-fail" && fr.U("ecode") == 2 {
+				continue // its own, expected outcome
+			}
 			if fr.Type == refcodec.Rlerror {
 				return failf("flushed-request-cancelled:"+c.Target, "the flushed request %s was answered %s instead of completing: %s", target, fr, desc())
 			}
@@ -266,7 +325,7 @@ events:
 	return nil
 }
 
-var flushTargets = []string{"read", "write", "walk3", "rename", "create", "getattr", "mkdir", "readdir"}
+var flushTargets = []string{"read", "write", "walk3", "rename", "create", "getattr", "mkdir", "readdir", "clunk", "remove", "walk-replace", "walk-fail", "rename-release"}
 
 func genFlushCase(rt *rapid.T) flushCase {
 	c := flushCase{Native: rapid.Bool().Draw(rt, "native"), Target: rapid.SampledFrom(flushTargets).Draw(rt, "target"), HoldAt: rapid.IntRange(1, 5).Draw(rt, "hold")}
@@ -355,7 +414,7 @@ func TestC14(t *testing.T) {
 				}
 			}
 		}
-		h.Exhaustive("8 flushed request types x 3 hold positions x event sets (every order for the small sets)")
+		h.Exhaustive(fmt.Sprintf("%d flushed request types (incl. requests whose backend call is the release of a File) x 3 hold positions x event sets (every order for the small sets)", len(flushTargets)))
 	}
 	rapidCases(h, "schedules", env.PerShard(env.Pick(1200, 120000)), genFlushCase, func(c flushCase) *fail {
 		st := &flushStats{}
